@@ -41,3 +41,9 @@ CLAIMS["C06"] = (
  "Trusted: the E4 partial evaluator (loops not summarised), the reference style table frozen from OpenAPI 3.0.3, reviewed table entries (cursor invariant, nested-shape panics discharged through R06.4), generated code passes style constants (checked under C01 once built).",
  "static analysis: finite-configuration constant propagation with branch pruning (partial evaluation of the typed AST), exhaustive enumeration of the admission table, finite-domain byte tables, compiler-enumerated bounds obligations",
 )
+CLAIMS["C15"] = (
+ "other",
+ "Path properties of every generated handler for all requests, per expansion (S2: templates expanded by cmd/ogen built from the current tree over the go:generate fixtures — a build step; every verdict is a static rule over the expanded code's SSA): every path through handle<Op>Request writes at least one response and a second write happens only on the error edge of the first; every call of the user handler (also inside the HookMiddleware closure) is dominated by the success edges of every security call, the requirement test, parameter decoding and request decoding, and each failure edge builds the stage's error type; request decoders refuse unknown content types and trailing JSON; S1: error type → status constants (401/400/400/415 before generic/501/500), 404 and 405+Allow defaults; all compiler-unproven bounds checks and explicit panics of conv, json, http, validate, ogenerrors, middleware are discharged. net/http's parsing, resource exhaustion, user handlers, and specs outside the fixture corpus (for S2 rules) are NOT decided.",
+ "Trusted: cmd/ogen as macro-expander; fixture corpus (quick: 8 fixtures, thorough: all directives with present inputs); reviewed table entries; go/ssa dominance.",
+ "static analysis: must-pass-through and dominance rules on the SSA of regenerated handlers, constant-return analysis, compiler-enumerated bounds obligations",
+)
